@@ -13,7 +13,9 @@ RULE = ('cases = corpus + generated: kind=body (payload sizes {limit-1, limit, l
         'max_body_size in {None, 0..40} x max_memfile_size 3..12 x framing Content-Length (also CL above/below the data) '
         'or chunked (random chunk sizes) x read fragmentation; via _body_read and via Ombott.__call__: status, body, '
         'type of Request.body, every read request and the stream position); kind=text (urlencoded / JSON bodies of the '
-        'same sizes; via Request._get_body_string and via Request.forms / Request.json: 413 or the text); kind=budget '
+        'same sizes; via Request._get_body_string and via Request.forms / Request.json: 413 or the text); kind=body with a '
+        'multipart Content-Type whose closing delimiter is followed by an epilogue of length around (limit - form) and far '
+        'above it (the epilogue counts; both framings; _body_read(markup=...) directly and through WSGI); kind=budget '
         '(multipart bodies of 1..5 parts, text and file parts, sizes around max_memfile_size; via '
         'FieldStorage.iter_items on the markup of MultipartMarkup and via Request.forms through WSGI; every WSGI-level '
         'case configures the application through the constructor, through app.setup(cfg) or through setup() '
@@ -191,6 +193,32 @@ def gen_budget(rng):
     return c
 
 
+def gen_epilogue(rng):
+    """a multipart body whose closing delimiter is followed by an epilogue: the epilogue is part of the body — it
+    counts against max_body_size and the read must stop at limit + one buffer, under both framings"""
+    parts = [dict(name='a', filename=None, size=rng.choice([0, 3, 9]), pad=0)]
+    if rng.random() < 0.4:
+        parts.append(dict(name='f', filename='u.bin', size=rng.choice([0, 20]), pad=0))
+    form, _ = build_multipart(parts)
+    buf = rng.randrange(3, 13)
+    maxb = len(form) + rng.choice([0, 1, 5, 20, 60])
+    room = maxb - len(form)
+    elen = rng.choice([0, max(room - 1, 0), room, room + 1, room + buf, room + buf + 1, 10 * maxb, rng.randrange(0, 200)])
+    payload = form + bytes(rng.choice([13, 10, 45, 69, rng.randrange(256)]) for _ in range(elen))
+    chunked = rng.random() < 0.5
+    if chunked:
+        data, layout = chunk_encode(rng, payload, buf)
+        cl = -1
+    else:
+        data, layout, cl = payload, None, len(payload)
+    c = dict(kind='body', data=list(data), cl=cl, chunked=chunked, buf=buf, maxb=rng.choice([maxb, maxb, None]),
+             sched=gen_sched(rng, len(data)), via=rng.choice(['func', 'wsgi', 'wsgi']), payload_len=len(payload),
+             layout=layout, ctype='multipart', expect='exact')
+    if c['via'] == 'wsgi':
+        c['conf'] = rng.choice(['ctor', 'setup'])
+    return c
+
+
 def gen_seq(rng):
     """3..7 requests (raw bodies, form texts, multipart forms) served by two shared application objects with
     different limits, interleaved: 413 / 200 / 400 in any order"""
@@ -225,6 +253,9 @@ def gen(rng, n):
     for i in range(n):
         if i % 25 == 17:
             yield gen_seq(rng)
+            continue
+        if i % 12 == 5:
+            yield gen_epilogue(rng)
             continue
         r = i % 10
         if r < 5:
@@ -281,6 +312,23 @@ def corpus():
     for via in ('iter_items', 'wsgi'):
         out.append(dict(kind='budget', parts=big_file, buf=200, via=via))
         out.append(dict(kind='budget', parts=big_file, buf=150, via=via))
+    # round 5: bytes behind the closing multipart delimiter count against max_body_size (both framings)
+    form1, _ = build_multipart([dict(name='a', filename=None, size=3, pad=0)])
+    for elen in (0, 1, 40, 41, 45, 400):
+        pl = form1 + b'E' * elen
+        for via in ('func', 'wsgi'):
+            c_ = _body(pl, len(pl), 4, len(form1) + 40, via=via)
+            c_['ctype'] = 'multipart'
+            out.append(c_)
+            enc_ = b''.join(b'%x\r\n' % len(pl[i:i + 9]) + pl[i:i + 9] + b'\r\n' for i in range(0, len(pl), 9)) + b'0\r\n\r\n'
+            lay, o_ = [], 0
+            for i in range(0, len(pl), 9):
+                n_ = len(pl[i:i + 9])
+                lay.append([o_, o_ + 3, o_ + 3 + n_])
+                o_ += 3 + n_ + 2
+            c_ = _body(enc_, -1, 4, len(form1) + 40, chunked=True, via=via, payload_len=len(pl), layout=lay)
+            c_['ctype'] = 'multipart'
+            out.append(c_)
     # fix F37: a chunked form with a Content-Length next to it — the text is the whole decoded body (was cut to
     # CL bytes), and 413 is decided on the decoded size (was decided on the header)
     for via in ('gbs', 'forms'):
@@ -549,9 +597,13 @@ def run_impl(case):
     st = FragStream(case['data'], case['sched'])
     if case['via'] == 'func':
         from ombott.request_pkg.body_mixin import _body_read
+        markup = None
+        if case.get('ctype') == 'multipart':    # the keyword the request glue passes for multipart content types
+            from ombott.request_pkg.multipart import MultipartMarkup
+            markup = MultipartMarkup(b'BnD')
         try:
             body = _body_read(st.read, case['buf'], content_length=case['cl'], chunked=case['chunked'],
-                              max_body_size=case['maxb'])
+                              max_body_size=case['maxb'], markup=markup)
         except BodySizeError:
             return dict(status='too_large', reqs=st.log, pos=st.pos)
         except BodyParsingError:
@@ -840,7 +892,8 @@ API_SURFACE = [
     ('_iter_body / _body_read(content_length=, max_body_size=)', 'covered by body/func, body/wsgi, body/request'),
     ('_iter_chunked under a limit', 'covered by body/* chunked (legal, with extensions) and the malformed ones (expect=reject)'),
     ('_body_read spool switch (BytesIO -> TemporaryFile)', 'covered: type of Request.body at size = threshold, +1, default 100 KiB'),
-    ('_body_read(markup=)', 'covered by budget/wsgi (fragmented multipart bodies)'),
+    ('_body_read(markup=)', 'covered by budget/wsgi (fragmented multipart bodies) and body/func+multipart (markup passed '
+                            'directly; closing delimiter followed by an epilogue around and far above the limit)'),
     ('BodyMixin._get_body_string', 'covered by text/gbs (twice on one request), text/forms, text/request'),
     ('BodyMixin.json / POST json branch / forms', 'covered by text/forms json (Request.json) and inner=forms_json (Request.forms); '
                                                   'excluded: invalid JSON / JSON that is no object -> 400 (C12)'),
